@@ -6,6 +6,7 @@ package composite
 // syncRollingUpdate, pruneParentRevisions, manageRevisions) → ManageChildren.
 
 import (
+	"errors"
 	"k8s.io/apimachinery/pkg/apis/meta/v1/unstructured"
 	k8sjson "k8s.io/apimachinery/pkg/util/json"
 
@@ -26,16 +27,16 @@ type verifRollWorld struct {
 	statusStanza    bool // the hook's children carry an (empty) status stanza and NOBODY ever writes a child's status
 	nested          bool
 	global          string // nested mode: value of the NON-revisioned field spec.x // revisioned value lives at spec.template.v, revision history = [spec.template]
-	replicas   int  // 0 = all names
-	gensel     bool
-	w          *env.World
-	pc         *verifPC
-	namespaced bool
-	parentRes  *dynamicdiscovery.APIResource
-	childRes   *dynamicdiscovery.APIResource
-	ns         string
-	names      []string
-	method     string
+	replicas        int    // 0 = all names
+	gensel          bool
+	w               *env.World
+	pc              *verifPC
+	namespaced      bool
+	parentRes       *dynamicdiscovery.APIResource
+	childRes        *dynamicdiscovery.APIResource
+	ns              string
+	names           []string
+	method          string
 }
 
 // verifRollHook: children = one object per name carrying the parent's spec.x;
@@ -217,7 +218,7 @@ func (r *verifRollWorld) markHealthy() {
 	}
 }
 
-func verifIsRevWrite(q env.Req) bool   { return q.IsWrite() && q.Resource == "controllerrevisions" }
+func verifIsRevWrite(q env.Req) bool { return q.IsWrite() && q.Resource == "controllerrevisions" }
 func (r *verifRollWorld) isChildWrite(q env.Req) bool {
 	return q.IsWrite() && q.Resource == r.childRes.Name
 }
@@ -274,7 +275,22 @@ func VerifC09_Ordering() {
 	}
 	r.pc.SnapshotFromStore()
 	fp := verifFingerprint(append(r.w.Srv.All(r.parentRes.Name)[:0], verifListerItems(r.pc)...), verifRevItems(r.pc))
-	err = r.pc.syncParentObject(r.pc.W.Srv.All(r.parentRes.Name)[0])
+	// through the real queue worker (processNextWorkItem -> sync(key)): whether
+	// the sync "reports an error" is read off the work queue - a failed sync is
+	// put back with back-off (the retry that carries the rollout on), a
+	// successful one is forgotten
+	key := "p"
+	if namespaced {
+		key = r.ns + "/p"
+	}
+	r.pc.Queue.Items = append(r.pc.Queue.Items, key)
+	r.pc.processNextWorkItem()
+	err = nil
+	if r.pc.Queue.Count("add-rate-limited") > 0 {
+		err = errors.New("sync failed: work item put back with back-off")
+	} else {
+		rt.Assert(r.pc.Queue.Count("forget") == 1, "work-item-neither-put-back-nor-forgotten")
+	}
 	rt.Observe("err", err != nil)
 
 	revFailed := false
